@@ -74,9 +74,19 @@ def sep(rnd, must=True):
     return '  '
 
 
-def value_text(tok, ty, rnd):
+def value_text(tok, ty, rnd, canonical=False):
     ty = ty.upper()
     v = decode(tok)
+    if canonical:
+        # the lexical form from which the loader guesses this very type when no CREATE TABLE statement is given
+        if ty == 'UNIQUE_ID':
+            return '"%s"' % uuid.UUID(int=v)
+        if ty == 'INTEGER':
+            return '%d' % v
+        if ty == 'BOOLEAN':
+            return rnd.choice(['TRUE', 'true', 'True'] if v else ['FALSE', 'false', 'False'])
+        if ty == 'REAL':
+            return repr(v) if 'e' not in repr(v) else '%f' % v
     if ty == 'UNIQUE_ID':
         if rnd.random() < 0.8 or v >= 2 ** 31:
             return '"%s"' % uuid.UUID(int=v)
@@ -126,7 +136,7 @@ def schema_statements(schema, rnd, parts=('table', 'rop', 'index')):
     return out
 
 
-def insert_statement(schema, row, rnd, named=None):
+def insert_statement(schema, row, rnd, named=None, canonical=False):
     c = row['c']
     attrs = schema['attrs'][c]
     W = lambda w: kwcase(w, rnd)
@@ -136,10 +146,10 @@ def insert_statement(schema, row, rnd, named=None):
         named = bool(missing) or rnd.random() < 0.3
     if named:
         cols = [a for a in attrs if a['n'] not in missing]
-        if rnd.random() < 0.5:
+        if rnd.random() < 0.5 and not canonical:
             rnd.shuffle(cols)
-        names = (',' + S()).join(a['n'] if rnd.random() < 0.7 else a['n'].upper() for a in cols)
-        vals = (',' + S()).join(value_text(row['v'][a['n']], a['t'], rnd) for a in cols)
+        names = (',' + S()).join(a['n'] if rnd.random() < 0.7 or canonical else a['n'].upper() for a in cols)
+        vals = (',' + S()).join(value_text(row['v'][a['n']], a['t'], rnd, canonical) for a in cols)
         return '%s%s%s%s%s%s(%s)%s%s%s(%s);' % (W('INSERT'), S(), W('INTO'), S(), c, S(), names, S(), W('VALUES'), S(), vals)
-    vals = (',' + S()).join(value_text(row['v'][a['n']], a['t'], rnd) for a in attrs)
+    vals = (',' + S()).join(value_text(row['v'][a['n']], a['t'], rnd, canonical) for a in attrs)
     return '%s%s%s%s%s%s%s%s(%s);' % (W('INSERT'), S(), W('INTO'), S(), c, S(), W('VALUES'), S(), vals)
